@@ -100,6 +100,9 @@ pixman_edge_step (pixman_edge_t *e,
 
     ne = e->e + n * (pixman_fixed_48_16_t) e->dx;
 
+    /* The error term advances even when no carry into x is needed */
+    e->e = ne;
+
     if (n >= 0)
     {
 	if (ne > 0)
